@@ -13,6 +13,13 @@ class BEMData:
 re_element = re.compile(r'^(-+)([a-z0-9]+[a-z0-9-]*)', re.I)
 re_modifier = re.compile(r'^(_+)([a-z0-9]+[a-z0-9-_]*)', re.I)
 
+block_lookup = {}
+"BEM data of ancestor nodes of the abbreviation being transformed, see `release_lookup()`"
+
+def release_lookup():
+    "Drops BEM data collected while transforming current abbreviation"
+    block_lookup.clear()
+
 def block_candidates1(class_name: str):
     return re.match(r'^[a-z]-', class_name, re.I)
 
@@ -112,7 +119,7 @@ def parse_bem(class_value=''):
     return BEMData(class_names, find_block_name(class_names))
 
 
-def get_block_name(ancestors: list, depth=0, context: dict=None, lookup={}):
+def get_block_name(ancestors: list, depth=0, context: dict=None, lookup=block_lookup):
     """
     Returns block name for given `node` by `prefix`, which tells the depth of
     of parent node lookup
